@@ -50,6 +50,11 @@ pub struct Case {
     pub conf: SConf,
     pub kind: MergeKind,
     pub src: InsertSrc,
+    /// values are inserted exactly as generated (no key tag, no record framing for keep-first/keep-last/sum) and the
+    /// merge function does not look at its key: the only way to have truly empty values, hence zero-size entries,
+    /// with an order-sensitive merge function
+    #[serde(default)]
+    pub raw: bool,
 }
 
 /// keys from a small universe so that duplicates are common
@@ -204,7 +209,7 @@ where
 }
 
 /// Feeds three identical sorters and takes the three exits. Returns outputs and the number of `create` calls.
-pub fn run_all_exits<CC: grenad::ChunkCreator + Clone>(conf: &SConf, kind: MergeKind, cc: CC, inserts: &[(Vec<u8>, Vec<u8>)], distinct: usize) -> Check<(Vec<SorterOut>, u64)>
+pub fn run_all_exits<CC: grenad::ChunkCreator + Clone>(conf: &SConf, kind: MergeKind, raw: bool, cc: CC, inserts: &[(Vec<u8>, Vec<u8>)], distinct: usize) -> Check<(Vec<SorterOut>, u64)>
 where
     CC::Chunk: Read + Seek,
 {
@@ -213,7 +218,7 @@ where
     let mut created = 0;
     for exit in [Exit::Stream, Exit::Writer, Exit::Cursors] {
         let n = Rc::new(Cell::new(0u64));
-        let s = feed(conf, MF::verifying(kind), Counting { inner: cc.clone(), n: n.clone() }, inserts)?;
+        let s = feed(conf, if raw { MF::plain(kind) } else { MF::verifying(kind) }, Counting { inner: cc.clone(), n: n.clone() }, inserts)?;
         outs.push(drain(s, exit, kind, &out_conf, distinct + 1)?);
         created = n.get();
     }
@@ -222,8 +227,8 @@ where
 
 /// What is fed to the sorter: every value is prefixed with a 2-byte tag of its key (so that the merge function can
 /// verify its `key` argument); for Concat the tagged value is framed as one self-delimiting record.
-pub fn prepared(kind: MergeKind, src: &InsertSrc) -> Vec<(Vec<u8>, Vec<u8>)> {
-    model_inserts(kind, src)
+pub fn prepared(kind: MergeKind, raw: bool, src: &InsertSrc) -> Vec<(Vec<u8>, Vec<u8>)> {
+    model_inserts(kind, raw, src)
         .into_iter()
         .map(|(k, v)| match kind {
             MergeKind::Concat => {
@@ -236,10 +241,11 @@ pub fn prepared(kind: MergeKind, src: &InsertSrc) -> Vec<(Vec<u8>, Vec<u8>)> {
 }
 
 /// what the model sees: the tagged values before framing (SumU32 values stay plain numbers)
-pub fn model_inserts(kind: MergeKind, src: &InsertSrc) -> Vec<(Vec<u8>, Vec<u8>)> {
+pub fn model_inserts(kind: MergeKind, untagged: bool, src: &InsertSrc) -> Vec<(Vec<u8>, Vec<u8>)> {
     let raw = src.inserts();
     match kind {
         MergeKind::SumU32 => raw,
+        _ if untagged => raw,
         _ => raw.into_iter().map(|(k, v)| { let t = sm::tagged(&k, &v); (k, t) }).collect(),
     }
 }
@@ -252,7 +258,7 @@ impl Prop for C07 {
     }
 
     fn stages(&self, tier: Tier) -> Vec<Stage<Case>> {
-        let small = (sm::sconf_small(), prop::sample::select(&MergeKind::ALL[..]), insert_src(tier)).prop_map(|(conf, kind, src)| Case { conf, kind, src });
+        let small = (sm::sconf_small(), prop::sample::select(&MergeKind::ALL[..]), insert_src(tier), prop::bool::weighted(0.35)).prop_map(|(conf, kind, src, raw)| Case { conf, kind, src, raw });
         // parallel sort with > 5000 buffered entries (below that rayon sorts sequentially)
         let par = (sm::sconf_small(), prop::sample::select(&MergeKind::ALL[..]), 5500u32..tier.pick(9000, 30000), 1u16..3000, any::<u16>(), any::<bool>())
             .prop_map(|(mut conf, kind, n, key_mod, mul, big)| {
@@ -260,11 +266,12 @@ impl Prop for C07 {
                 conf.init_cap = Some(1 << 19);
                 conf.parallel = true;
                 conf.creator = CreatorKind::CursorVec;
-                Case { conf, kind, src: InsertSrc::Many { n, key_mod, mul, kpad: 0, vlen: 4 } }
+                Case { conf, kind, src: InsertSrc::Many { n, key_mod, mul, kpad: 0, vlen: 4 }, raw: false }
             });
         // the public API without hooks: real 10 MiB clamp, default capacities
-        let public = (prop::sample::select(&MergeKind::ALL[..]), insert_src(tier), any::<bool>(), any::<bool>(), prop::sample::select(vec![1usize, 2, 25]), 0u8..6).prop_map(
-            |(kind, src, allow_realloc, stable, max_nb_chunks, order)| Case {
+        let public = (prop::sample::select(&MergeKind::ALL[..]), insert_src(tier), any::<bool>(), any::<bool>(), prop::sample::select(vec![1usize, 2, 25]), 0u8..6, prop::bool::weighted(0.35)).prop_map(
+            |(kind, src, allow_realloc, stable, max_nb_chunks, order, raw)| Case {
+                raw,
                 conf: SConf {
                     threshold: Threshold::Default,
                     init_cap: None,
@@ -288,6 +295,7 @@ impl Prop for C07 {
         // recur in distant chunks; the final merge has tens of thousands of sources
         let many_chunks = (prop::sample::select(vec![300u32, 65_540, 66_000]), 2u16..6, prop::sample::select(vec![MergeKind::Concat, MergeKind::First, MergeKind::Last]), any::<bool>())
             .prop_map(|(n, key_mod, kind, stable)| Case {
+                raw: false,
                 conf: SConf {
                     threshold: Threshold::Exact(256),
                     init_cap: Some(256),
@@ -336,6 +344,7 @@ impl Prop for C07 {
             ("sorter:chunk-merge", tier.pick(200, 6000)),
             ("sorter:entry>budget", tier.pick(50, 1500)),
             ("sorter:parallel>5000", tier.pick(30, 600)),
+            ("sorter:zero-size-run>20", tier.pick(40, 600)),
         ]
     }
 
@@ -348,22 +357,22 @@ impl Prop for C07 {
     }
 
     fn run(&self, case: &Case, obs: &mut Obs) -> Check {
-        let inserts = prepared(case.kind, &case.src);
-        let model_in = model_inserts(case.kind, &case.src);
+        let inserts = prepared(case.kind, case.raw, &case.src);
+        let model_in = model_inserts(case.kind, case.raw, &case.src);
         let distinct = sm::group(&inserts).len();
         let (outs, created) = match case.conf.creator {
-            CreatorKind::CursorVec => run_all_exits(&case.conf, case.kind, grenad::CursorVec, &inserts, distinct)?,
-            CreatorKind::TempFile => run_all_exits(&case.conf, case.kind, grenad::TempFileChunk, &inserts, distinct)?,
-            CreatorKind::Instrumented => run_all_exits(&case.conf, case.kind, Creator { ctl: ioinstr::ctl() }, &inserts, distinct)?,
+            CreatorKind::CursorVec => run_all_exits(&case.conf, case.kind, case.raw, grenad::CursorVec, &inserts, distinct)?,
+            CreatorKind::TempFile => run_all_exits(&case.conf, case.kind, case.raw, grenad::TempFileChunk, &inserts, distinct)?,
+            CreatorKind::Instrumented => run_all_exits(&case.conf, case.kind, case.raw, Creator { ctl: ioinstr::ctl() }, &inserts, distinct)?,
             CreatorKind::InstrumentedReentrant => {
                 let ctl = ioinstr::ctl();
                 ctl.borrow_mut().reentrant = true;
-                run_all_exits(&case.conf, case.kind, Creator { ctl }, &inserts, distinct)?
+                run_all_exits(&case.conf, case.kind, case.raw, Creator { ctl }, &inserts, distinct)?
             }
             CreatorKind::InstrumentedStaging => {
                 let ctl = ioinstr::ctl();
                 ctl.borrow_mut().staging = true;
-                run_all_exits(&case.conf, case.kind, Creator { ctl }, &inserts, distinct)?
+                run_all_exits(&case.conf, case.kind, case.raw, Creator { ctl }, &inserts, distinct)?
             }
         };
         for (o, name) in outs.iter().zip(["stream", "writer", "cursors"]) {
@@ -411,6 +420,12 @@ impl Prop for C07 {
         obs.class(format!("sorter:{:?}", case.conf.creator));
         obs.class(format!("sorter:{:?}", case.kind));
         obs.class(if case.conf.stable { "sorter:stable" } else { "sorter:unstable" });
+        if case.raw {
+            obs.class("sorter:raw-values");
+            if case.conf.stable && case.kind != MergeKind::SumU32 && inserts.len() > 20 && inserts.windows(2).any(|w| w[0].0.is_empty() && w[1].0.is_empty() && w[1].1.is_empty()) {
+                obs.class("sorter:zero-size-run>20");
+            }
+        }
         obs.add("inserts", inserts.len() as u64);
         obs.add("chunks_created", created);
         obs.nontrivial = nt;
@@ -422,7 +437,7 @@ impl Prop for C07 {
 
 /// Bounded-exhaustive: EVERY insert sequence of length <= L over the keys {"", "a", "b"} (values numbered by position),
 /// for every spill rhythm (a 256-byte budget without reallocation and values sized so that the buffer holds exactly
-/// 1, 2, 3 or all entries, plus empty values: zero-size entries for the untagged sum function), every chunk limit in {1, 2, 3}, both sort algorithms and every merge function; all three
+/// 1, 2, 3 or all entries, plus truly empty values, inserted untagged: zero-size entries), every chunk limit in {1, 2, 3}, both sort algorithms and every merge function; all three
 /// exits are taken and judged by the same oracle as the generated cases.
 pub fn small_scope(tier: Tier, threads: usize) -> crate::runner::ExtraOut {
     use std::sync::atomic::{AtomicU64, Ordering};
@@ -467,6 +482,7 @@ pub fn small_scope(tier: Tier, threads: usize) -> crate::runner::ExtraOut {
                         for stable in [true, false] {
                             for kind in MergeKind::ALL {
                                 let case = Case {
+                                    raw: vlen == 0,
                                     conf: SConf {
                                         threshold: Threshold::Exact(256),
                                         init_cap: Some(256),
